@@ -149,3 +149,53 @@ def check_C10(tier):
         if not okk:
             raise ToolError("binding self-test failed")
     return res.finish()
+
+
+def det_descriptor(rec, clause):
+    return {"family": "det", "clause": clause, "kind": rec.get("kind"), "nbanks": rec.get("nbanks"),
+            "verdicts": sorted(set(x[2] for x in rec.get("runs", [])))}
+
+
+def check_C11(tier):
+    res = Result("C11", tier, "model_checking")
+    res.rule = ("E1 (MC_MainEvent): the implementation-shaped fold over every sequence of <= 4 (5) bank templates equals "
+                "Build(bag), i.e. every bag in every arrival order gives the same verdict and slots. E2/E3: bags from the "
+                "abstract model (concretised), seeded events with injected inconsistencies, clashing PWB payload "
+                "identities, and simulated 1-4 track events with noise and their malformed variants (bit flip, duplicated "
+                "bank, dropped bank); for each bag every adjacent transposition, the reversal and 3 (20) random "
+                "permutations are run in-process (identity twice), on 4 concurrent threads and in 1-8 fresh processes "
+                "(fresh HashMap hash seeds). Trace_Det requires one verdict class and one digest (bit patterns of "
+                "timestamp, avalanche list in order, vertex) per bag. distinct_nontrivial = bags with >= 2 banks whose "
+                "runs include >= 3 different places (process, thread, child process)")
+    res.assumptions = ["MC_MainEvent is the design-level argument; the implementation is bound by sampled bags x permutations x places",
+                       "the digest is a 64-bit FNV fingerprint of the canonical result text (collisions ignored)"]
+    full_config()
+    beh, nb = export_model_events(res, tier, 4 if tier == "quick" else 5, 3)
+    trace = os.path.join(BUILD, "traces", "C11_trace.ndjson")
+    nsim, nrand = (8, 40) if tier == "quick" else (200, 1500)
+    res.evaluations += run_vh(["det", "--data", os.path.join(REPO, "physics", "data"), "--in", beh, "--nsim", str(nsim),
+                               "--n", str(nrand), "--seed", str(seed()), "--tier", tier], trace, timeout=7200)
+    validate_dec_trace(res, trace, "C11", module="Trace_Det", descriptor=det_descriptor)
+    nt = 0
+    calls = 0
+    with open(trace) as f:
+        for line in f:
+            rec = json.loads(line)
+            calls += len(rec.get("runs", []))
+            if rec.get("nbanks", 0) >= 2 and len(set(x[0] for x in rec.get("runs", []))) >= 3:
+                nt += 1
+            if len(res.samples) < 3 and rec.get("kind", "").startswith("sim"):
+                res.add_sample(slim(rec, 8), 3)
+    res.distinct = nt
+    res.extra["library_calls"] = calls
+    if tier == "thorough":
+        rec = json.loads(open(trace).readline())
+        rec["runs"][-1][3] = "0000000000000000"
+        p2 = trace + ".selftest"
+        open(p2, "w").write(json.dumps(rec) + "\n")
+        _, mism, _ = tlc_validate("Trace_Det", p2, "C11_self")
+        okk = any(m[0] == rec["i"] for m in mism)
+        res.extra["binding_selftest"] = {"corrupted_record": rec["i"], "rejected": okk, "how": "changed the digest of one run"}
+        if not okk:
+            raise ToolError("binding self-test failed")
+    return res.finish()
